@@ -16,6 +16,7 @@ import (
 
 type genTextOpts struct {
 	noTrailingCRValue bool
+	crcrlf            bool // some lines end in CR CR LF (what the reader makes of the extra CR is not prescribed; a round trip must survive it)
 	stress            bool // more distinct keys/units than any small intern table holds
 	maxLines          int
 	longLine          bool
@@ -177,6 +178,8 @@ func genBenchText(T *sim.Tape, opts genTextOpts) []byte {
 		last := i == n-1
 		switch {
 		case last && T.Intn(4, "unterminated") == 0:
+		case opts.crcrlf && T.Intn(16, "crcrlf") == 0:
+			b.WriteString("\r\r\n") // a file that went through CR-LF conversion twice
 		case T.Intn(8, "crlf") == 0:
 			b.WriteString("\r\n")
 		default:
@@ -356,9 +359,7 @@ func refSplitLines(text string) []string {
 		} else {
 			l, text = text[:i], text[i+1:]
 		}
-		if strings.HasSuffix(l, "\r") {
-			l = l[:len(l)-1]
-		}
+		l = strings.TrimRight(l, "\r") // CRs before the LF belong to the line end
 		lines = append(lines, l)
 	}
 	return lines
